@@ -71,7 +71,7 @@ func genCtl(r *simrt.Rand, tier string, flavor string) json.RawMessage {
 			t := r.Range(2, nodes)
 			c.Ops = append(c.Ops, W3Op{K: "removenode", Node: r.Range(1, nodes), A: t})
 			if r.Bool(0.4) { // the machine comes back later and joins again (same id and address)
-				c.Ops = append(c.Ops, W3Op{K: "wait", Ms: r.Range(100, 4000)}, W3Op{K: "rejoin", Node: t, A: r.Range(1, nodes), B: r.Intn(2)})
+				c.Ops = append(c.Ops, W3Op{K: "wait", Ms: r.Range(100, 4000)}, W3Op{K: "rejoin", Node: t, A: r.Range(1, nodes), B: r.Intn(2), P: newAddr(r, flavor)})
 			}
 		case x < 72:
 			n := r.Range(1, nodes)
@@ -200,6 +200,19 @@ func genCtlRemoveLeader(r *simrt.Rand, c W3Case) json.RawMessage {
 	return b
 }
 
+// newAddr decides whether a removed node comes back under a new address (1) or its old
+// one (0). The product has no notion of a node changing its address: the address book
+// is not versioned, so a member that holds an older authoritative address (from its own
+// log or from a snapshot cut before the change) and needs the node to make progress
+// cannot reach it. This is recorded as an open finding of C20; runs in which it can
+// play a part are rare and their violations carry the prefix "after-address-change/".
+func newAddr(r *simrt.Rand, flavor string) int {
+	if flavor == "C20" && r.Bool(0.15) {
+		return 1
+	}
+	return 0
+}
+
 // joinList: the addresses a starting node is given (cmd/anndb --join a,b,c): the member
 // it should ask first, then every other node in order.
 func joinList(self, first, n int) []int {
@@ -243,9 +256,15 @@ func genCtlRejoinThroughLaggingMember(r *simrt.Rand, c W3Case) json.RawMessage {
 	c.Ops = append(c.Ops,
 		W3Op{K: "wait", Ms: r.Range(20000, 22000)}, // the handshakes of the initial members settle
 		W3Op{K: "isolate", Node: m2}, W3Op{K: "wait", Ms: r.Range(300, 2500)},
-		W3Op{K: "removenode", Node: m1, A: x},
-		W3Op{K: "heal"},
-		W3Op{K: "rejoin", Node: x, A: m2})
+		W3Op{K: "removenode", Node: m1, A: x})
+	if r.Bool(0.5) {
+		c.Ops = append(c.Ops, W3Op{K: "heal"}, W3Op{K: "rejoin", Node: x, A: m2})
+	} else {
+		// the node comes back (under a new address) while the member is still cut off; the
+		// member misses both changes and is later caught up, possibly by a snapshot
+		c.Cfg.SnapshotOffset = int64(r.Range(1, 3))
+		c.Ops = append(c.Ops, W3Op{K: "rejoin", Node: x, A: m1, P: newAddr(r, "C20")}, W3Op{K: "wait", Ms: r.Range(10500, 13000)}, W3Op{K: "heal"})
+	}
 	if r.Bool(0.5) {
 		c.Ops = append(c.Ops, W3Op{K: "wait", Ms: r.Range(500, 3000)}, W3Op{K: "crash", Node: m2}, W3Op{K: "restart", Node: m2})
 	}
@@ -259,6 +278,7 @@ type ctlState struct {
 	joinTried      map[int]bool
 	dsAck          map[int]string // slot -> present | absent | unknown
 	removalUnknown map[int]bool
+	addrChanged    bool         // some node came back under a new address (known finding: see newAddr)
 	rejoined       map[int]bool // node index -> removed once and announced itself again (listed only once that join is acknowledged)
 }
 
@@ -348,6 +368,15 @@ func (r *W3Run) execCtlOps(st *ctlState) {
 				if r.mon != nil {
 					r.mon.forgetDisk(n)
 				}
+			}
+			if op.P == 1 {
+				// the machine comes back under a new address (same id)
+				delete(s.byAddr, n.addr)
+				n.port = fmt.Sprintf("%d", 18000+n.idx+10*n.inc)
+				n.addr = ":" + n.port
+				s.byAddr[n.addr] = n
+				s.out.Stat("membership_rejoins_with_a_new_address", 1)
+				st.addrChanged = true
 			}
 			n.join = nil
 			for _, j := range joinList(n.idx, op.A, len(s.nodes)) {
@@ -705,6 +734,11 @@ func execCtl(prop string, raw json.RawMessage, wantLog bool) (out Outcome) {
 		}
 		r.out.Stat("canary_creates_ok", 1)
 	})
+	if st.addrChanged {
+		for i := range out.Violations {
+			out.Violations[i].Sig = "after-address-change/" + out.Violations[i].Sig
+		}
+	}
 	out.Nontrivial = out.Stats["catalogue_creates"]+out.Stats["membership_joins"]+out.Stats["membership_removals"] > 0
 	return
 }
